@@ -558,7 +558,7 @@ def run(ctx):
     rng = ctx.rng("gen")
     srng = ctx.rng("stores")
     n_rt_bad = 0
-    want_gf = ctx.pick(0, 150) if not os.environ.get("C06_GFORTRAN") else 40
+    want_gf = ctx.pick(0, 90) if not os.environ.get("C06_GFORTRAN") else 40
     gf_items = []
     for kind, n in KINDS_Q:
         for i in range(n * scale):
